@@ -361,7 +361,9 @@ pub mod cluster {
     async fn run(case: &Case) -> Outcome {
         let repair = Duration::from_secs(5);
         let layout = Layout { nodes: case.nodes.clone(), repair_interval: repair, storage_latency_ms: case.storage_latency_ms.clone() };
+        let t_start = tokio::time::Instant::now();
         let mut nodes = e3::start_cluster(&layout).await;
+        crate::c01::POLLER_CLOCK.with(|c| c.set(Some((t_start + Duration::from_millis(20), repair))));
         let t0 = tokio::time::Instant::now();
         for op in &case.before {
             run_op(&nodes, op).await;
@@ -418,7 +420,7 @@ pub mod cluster {
                 Op::DelMany { node, ks, keys, level } => Op::DelMany { node: remap(node), ks, keys, level },
                 o => o,
             };
-            if !matches!(mapped, Op::Advance(_)) {
+            if !matches!(mapped, Op::Advance(_) | Op::ToPollerTick(_)) {
                 wrote_while_down = true;
             }
             run_op(&nodes, &mapped).await;
